@@ -107,6 +107,10 @@ def cases(tier: str, seed: int) -> List[Dict[str, Any]]:
                     out.append({"kind": "fx_big", "fn": fn, "dtype": dt, "n": n, "backend": be, "seed": seed})
         for c in comps:
             out.append({"kind": "comp", "ops": c, "backend": be, "dtype": "float32" if len(c) % 2 == 0 else "float64", "seed": seed})
+    # scheduling only: the expensive compilations (whole modules, long compositions) first, so that the pool
+    # does not end on them
+    rank = {"module": 0, "comp": 1, "multi_out": 2}
+    out.sort(key=lambda c: (rank.get(c["kind"], 3), -len(c.get("ops", []))))
     return out
 
 
